@@ -22,7 +22,7 @@ def job_empi(m, seed=0, timeout_s=10.0):
 
 
 def jobs(tier, seed):
-    t = 10.0 if tier == "quick" else 60.0
+    t = 30.0 if tier == "quick" else 90.0
     js = [Job("C14/sampler", "contracts.C14:job_sampler", dict(seed=seed, timeout_s=t))]
     for m in ([2, 3, 4] if tier == "quick" else list(range(2, 17))):
         js.append(Job(f"C14/empi/{m}", "contracts.C14:job_empi", dict(m=m, seed=seed, timeout_s=t)))
